@@ -124,6 +124,9 @@ func attempt(cfg config, faults []fault) (o outcome) {
 		case "hangupInQueue":
 			acceptDelay = 5 * time.Second
 			hangup = true
+		case "hangupNoAccept": // the peer hangs up while queued and nobody accepts until the accept timeout
+			acceptDelay = 20 * time.Second
+			hangup = true
 		case "closeAfter":
 			closeAfter[f.Side] = f.At
 		}
@@ -372,7 +375,7 @@ func enumerate(dry outcome) []fault {
 		fault{Class: "gater", Side: "client", Hook: "InterceptSecured"},
 		fault{Class: "gater", Side: "server", Hook: "InterceptSecured"},
 		fault{Class: "gater", Side: "server", Hook: "InterceptAccept"},
-		fault{Class: "noAccept"}, fault{Class: "hangupInQueue"},
+		fault{Class: "noAccept"}, fault{Class: "hangupInQueue"}, fault{Class: "hangupNoAccept"},
 	)
 	for _, side := range []string{"client", "server"} {
 		for _, h := range []string{"OpenConnection", "SetPeer", "BeginSpan"} {
